@@ -101,6 +101,9 @@ def from_problem(p, V, mode, priority="pareto", max_iter=None, tracked=(), unkno
             cls = p["inds"][p["objs"][0]["ind"] - 1]["cls"]
             if cls == "IndicatorResourceUtilization":
                 bound = [0 if d == "min" else 100]
+            if p["inds"][p["objs"][0]["ind"] - 1].get("bounds"):
+                bnd = p["inds"][p["objs"][0]["ind"] - 1]["bounds"]
+                bound = [bnd[0] if d == "min" else bnd[1]]
         mixed = len(kinds) > 1
     else:
         d, weights, bound, mixed = "none", [], [], False
